@@ -303,8 +303,15 @@ func (e *explorer) caseA(t tally, caseID int, files map[string]string) {
 
 	// 1. baseline
 	cs.config("baseline", true, nil, nil, one(localSpec(), cacheNone))
+	// File sets of 4 paths (thorough tier) run the order/backend/locality configurations and the perturbations;
+	// the dimensions that do not interact with the number of files (names, b4 key, cache, OmniProvider,
+	// targeting, v1 object data) and the 8-bit flips are exhaustive over the file sets of <= 3 paths.
+	full := len(files) <= 3
 	// 2. names
 	for _, n := range []string{nameN1, nameN2} {
+		if !full {
+			break
+		}
 		s := localSpec()
 		s.name, s.commit = n, commitFor(n, 0)
 		cs.config("name", true, nil, nil, one(s, cacheNone))
@@ -361,6 +368,10 @@ func (e *explorer) caseA(t tally, caseID int, files map[string]string) {
 	}
 	// 5. remote modules: own provider (b5 key, b4 key), module cache (dir, tar), OmniProvider
 	cs.config("remote-b5key", false, nil, nil, one(remoteSpec(cs.want["b5"]), cacheNone))
+	if !full {
+		cs.perturbations()
+		return
+	}
 	cs.config("remote-b4key", false, nil, nil, one(remoteSpec(cs.want["b4"]), cacheNone))
 	cs.config("cache-dir", false, nil, nil, one(remoteSpec(cs.want["b5"]), cacheDir))
 	cs.config("cache-tar", false, nil, nil, one(remoteSpec(cs.want["b5"]), cacheTar))
@@ -737,7 +748,7 @@ func singlePerturbations(files map[string]string, quick bool) []perturbation {
 func (cs *caseState) perturbations() {
 	before := cs.e.observeMemo(cs.files)
 	keyBefore := refKey(cs.mf)
-	for _, p := range singlePerturbations(cs.files, cs.e.r.Quick()) {
+	for _, p := range singlePerturbations(cs.files, cs.e.r.Quick() || len(cs.files) > 3) {
 		after := cs.e.observeMemo(p.files)
 		expectChange := refKey(refModuleFiles(p.files)) != keyBefore
 		role := "non-module"
@@ -854,7 +865,7 @@ func briefFiles(files map[string]string) map[string]string {
 func (e *explorer) partBytes() {
 	r := e.r
 	long := strings.Repeat("0123456789abcdef", 9)[:137] // crosses the SHAKE256 rate of 136 bytes
-	hugeBytes := make([]byte, 70001)                     // crosses the 32 KiB copy buffer twice
+	hugeBytes := make([]byte, 70001)                    // crosses the 32 KiB copy buffer twice
 	for i := range hugeBytes {
 		hugeBytes[i] = byte(i*7 + i/251)
 	}
@@ -922,7 +933,7 @@ func (e *explorer) partBytes() {
 			f[it.b.path] = string(nb)
 			e.r.Eval(1)
 			after := e.observe(f)
-			t.add("A2/byte-replacements", "A2/large-content-agree/backend-disk", "A2/large-content-agree/backend-tar", "A2/large-content-agree/backend-zip", 1)
+			t.add("A2/byte-replacements", 1)
 			mf := refModuleFiles(f)
 			wants := [3]string{refB4(mf, nil), refB5(mf, nil), refB5(mf, nil)}
 			for x, name := range obsNames {
@@ -948,14 +959,14 @@ func (e *explorer) partBytes() {
 			}
 			if large {
 				// large contents also go through the disk, tar and zip backends
-				e.largeBackends(t, f, wants, fmt.Sprintf("a2-%d-%d", i, v))
+				e.largeBackends(t, f, wants, [2]string{after.str(0), after.str(1)}, fmt.Sprintf("a2-%d-%d", i, v))
 			}
 		}
 		e.merge(t)
 	})
 }
 
-func (e *explorer) largeBackends(t tally, files map[string]string, wants [3]string, id string) {
+func (e *explorer) largeBackends(t tally, files map[string]string, wants [3]string, mem [2]string, id string) {
 	ctx := e.ctx
 	dir := filepath.Join(e.scratch, id)
 	defer os.RemoveAll(dir)
@@ -981,6 +992,9 @@ func (e *explorer) largeBackends(t tally, files map[string]string, wants [3]stri
 		}
 		for x, dt := range []string{"b4", "b5"} {
 			o := digestOf(mods[0], dt)
+			if o.s != wants[x] && o.s != "" && o.s == mem[x] {
+				continue // the same deviation as on the memory backend, reported there
+			}
 			if o.s != wants[x] {
 				e.r.Violate("invariance/"+be.name+"/"+dt+"/large-content", "digest of a module with a large file differs from the reference on this backend",
 					caseA{Part: "A2", Files: briefFiles(files), Config: be.name, Digest: dt, Want: wants[x], Got: o.s, Err: fmt.Sprint(o.err)})
